@@ -13,24 +13,24 @@ import (
 	"github.com/ontio/ontology/account"
 )
 
-type gen struct {
+type hgen struct {
 	r   *runner
 	rng *rand.Rand
 	st  []*dRec // records of the pool ids before the next operation
 }
 
-func (g *gen) in(n int) int      { return g.rng.Intn(n) }
-func (g *gen) p(pct int) bool    { return g.rng.Intn(100) < pct }
+func (g *hgen) in(n int) int      { return g.rng.Intn(n) }
+func (g *hgen) p(pct int) bool    { return g.rng.Intn(100) < pct }
 func ip(i int) *int              { return &i }
 func up(u uint64) *uint64        { return &u }
 func keyBlob(n int) *Blob        { return &Blob{"key", n} }
-func (g *gen) anyAddr() int      { return g.in(g.r.w.nAddrs) }
-func (g *gen) regularID() int    { return g.in(5) }
-func (g *gen) weirdID() int      { return 5 + g.in(4) }
-func (g *gen) keyAddr(k int) int { return g.r.w.keys[k].addr }
+func (g *hgen) anyAddr() int      { return g.in(g.r.w.nAddrs) }
+func (g *hgen) regularID() int    { return g.in(5) }
+func (g *hgen) weirdID() int      { return 5 + g.in(4) }
+func (g *hgen) keyAddr(k int) int { return g.r.w.keys[k].addr }
 
 // keys of identity id by kind: 1-based indices
-func (g *gen) keysOf(id int, want func(k dKey) bool) []int {
+func (g *hgen) keysOf(id int, want func(k dKey) bool) []int {
 	var out []int
 	for i, k := range g.st[id].Keys {
 		if k.Tok >= 0 && want(k) {
@@ -44,7 +44,7 @@ func nonauth(k dKey) bool { return !k.Revoked && !k.Auth }
 func revoked(k dKey) bool { return k.Revoked }
 func anyKey(k dKey) bool  { return true }
 
-func (g *gen) pick(l []int) (int, bool) {
+func (g *hgen) pick(l []int) (int, bool) {
 	if len(l) == 0 {
 		return 0, false
 	}
@@ -52,7 +52,7 @@ func (g *gen) pick(l []int) (int, bool) {
 }
 
 // a key token not yet in identity id's list (or any token when exhausted)
-func (g *gen) freshKey(id int) int {
+func (g *hgen) freshKey(id int) int {
 	used := map[int]bool{}
 	for _, k := range g.st[id].Keys {
 		used[k.Tok] = true
@@ -66,7 +66,7 @@ func (g *gen) freshKey(id int) int {
 	return g.in(len(g.r.w.keys))
 }
 
-func (g *gen) newKeyBlob(id int) *Blob {
+func (g *hgen) newKeyBlob(id int) *Blob {
 	switch x := g.in(100); {
 	case x < 80:
 		return keyBlob(g.freshKey(id))
@@ -79,7 +79,7 @@ func (g *gen) newKeyBlob(id int) *Blob {
 }
 
 // ownWitness: an index and a signer set for a by-index call on id, right or perturbed.
-func (g *gen) ownWitness(id int) (idx uint64, sig []int) {
+func (g *hgen) ownWitness(id int) (idx uint64, sig []int) {
 	lv := g.keysOf(id, live)
 	mode := g.in(100)
 	if i, ok := g.pick(lv); ok && mode < 70 {
@@ -128,7 +128,7 @@ func (g *gen) ownWitness(id int) (idx uint64, sig []int) {
 }
 
 // ownOperator: operator bytes and signer set for a by-key call on id.
-func (g *gen) ownOperator(id int) (*Blob, []int) {
+func (g *hgen) ownOperator(id int) (*Blob, []int) {
 	idx, sig := g.ownWitness(id)
 	idx &= 0xffffffff
 	if idx >= 1 && int(idx) <= len(g.st[id].Keys) && g.st[id].Keys[idx-1].Tok >= 0 {
@@ -155,7 +155,7 @@ func leaves(p *PGroup, out *[]int) {
 }
 
 // groupSigners: signer list and tx signers that should satisfy parsed group p, then perturbed.
-func (g *gen) groupSigners(p *PGroup) ([]Sg, []int) {
+func (g *hgen) groupSigners(p *PGroup) ([]Sg, []int) {
 	var ls []int
 	leaves(p, &ls)
 	var sgs []Sg
@@ -200,7 +200,7 @@ func (g *gen) groupSigners(p *PGroup) ([]Sg, []int) {
 	return sgs, sig
 }
 
-func (g *gen) randGroup(depth int) *Grp {
+func (g *hgen) randGroup(depth int) *Grp {
 	n := g.in(4)
 	if g.p(5) {
 		n = 0
@@ -237,7 +237,7 @@ func deepGroup(levels int) *Grp {
 	return gr
 }
 
-func (g *gen) groupArg() *Grp {
+func (g *hgen) groupArg() *Grp {
 	switch x := g.in(100); {
 	case x < 86:
 		return g.randGroup(0)
@@ -250,7 +250,7 @@ func (g *gen) groupArg() *Grp {
 }
 
 // ctrlProof: a proof for the controller given as raw bytes (stored or about to be installed).
-func (g *gen) ctrlProof(raw []byte) (*Proof, []int) {
+func (g *hgen) ctrlProof(raw []byte) (*Proof, []int) {
 	w := g.r.w
 	if raw != nil && account.VerifyID(string(raw)) {
 		if t, ok := w.idTok[string(raw)]; ok && t < nPoolIDs {
@@ -281,7 +281,7 @@ func (g *gen) ctrlProof(raw []byte) (*Proof, []int) {
 	return &Proof{Index: up(uint64(1 + g.in(2)))}, []int{g.anyAddr()}
 }
 
-func (g *gen) attrs() []Attr {
+func (g *hgen) attrs() []Attr {
 	n := 1 + g.in(3)
 	if g.p(5) {
 		n = 0
@@ -297,7 +297,7 @@ func (g *gen) attrs() []Attr {
 	return out
 }
 
-func (g *gen) path(id int) int {
+func (g *hgen) path(id int) int {
 	if a := g.st[id].Attrs; len(a) > 0 && g.p(75) {
 		return a[g.in(len(a))][0]
 	}
@@ -306,7 +306,7 @@ func (g *gen) path(id int) int {
 
 var validMethods = allMethods[3:] // everything but the three registrations
 
-func (g *gen) register(id int) Op {
+func (g *hgen) register(id int) Op {
 	w := g.r.w
 	switch x := g.in(100); {
 	case x < 50 || (x < 100 && g.noRegistered()):
@@ -342,7 +342,7 @@ func (g *gen) register(id int) Op {
 	}
 }
 
-func (g *gen) noRegistered() bool {
+func (g *hgen) noRegistered() bool {
 	for i := 0; i < 5; i++ {
 		if g.st[i].Flag == 1 && len(g.keysOf(i, live)) > 0 {
 			return false
@@ -352,7 +352,7 @@ func (g *gen) noRegistered() bool {
 }
 
 // opFor builds method m addressed to id from the current state.
-func (g *gen) opFor(m string, id int) Op {
+func (g *hgen) opFor(m string, id int) Op {
 	w := g.r.w
 	st := g.st[id]
 	o := Op{M: m, ID: id, Extra: g.p(20)}
@@ -475,7 +475,7 @@ func (g *gen) opFor(m string, id int) Op {
 }
 
 // keyIndex: an index into id's key list for revoke-by-index / change-authentication calls.
-func (g *gen) keyIndex(id int) uint64 {
+func (g *hgen) keyIndex(id int) uint64 {
 	n := len(g.st[id].Keys)
 	switch x := g.in(100); {
 	case x < 80 && n > 0:
@@ -493,7 +493,7 @@ func (g *gen) keyIndex(id int) uint64 {
 }
 
 // next draws the next operation.
-func (g *gen) next() Op {
+func (g *hgen) next() Op {
 	var id int
 	if g.p(93) {
 		id = g.regularID()
@@ -540,7 +540,7 @@ func (g *gen) next() Op {
 
 // genHistory draws a history of n operations, executing it on a scratch store as it goes.
 func (r *runner) genHistory(rng *rand.Rand, n int, tag string) *History {
-	g := &gen{r: r, rng: rng}
+	g := &hgen{r: r, rng: rng}
 	w := r.w
 	w.reset()
 	h := &History{Tag: tag}
